@@ -227,6 +227,10 @@ theorem strVerify_iff (argon2 : Nat → Nat → Nat → Nat → Bytes → Bytes 
 
 /-! ## 8. totality -/
 
+/-- Corollary of totalisation: the definition `parse` has no panic branch in reach (the four `unwrap()`s of the
+Rust's final checks are not represented in it).  The code-shaped statement that carries content is
+`C04.parseRaw_eq` (`parseRaw`, with each `unwrap()` as an explicit panic branch, equals `parse` on every input —
+each `unwrap()` is protected by the `is_none() ||` in front of it), whence `C04.parseRaw_never_panics`. -/
 theorem parse_never_panics (s : Str) : parse s ≠ .panic := parse_ne_panic s
 
 /-- the `unwrap()`s after a successful parse cannot fail: every field is present -/
@@ -241,6 +245,10 @@ theorem parse_ok_range (s : Str) (r : Parsed) (h : parse s = .ok r) :
     (∀ t, r.t = some t → t < 2 ^ 32) ∧ (∀ m, r.m = some m → m < 2 ^ 32) :=
   Model.PwhashStr.parse_ok_range h
 
+/-- Corollary of totalisation: the definition `reencode` has no panic branch in reach (its `unwrap()`s come after
+a successful `parse`, which `parse_ok_complete` shows to have every field present).  The code-shaped statement
+that carries content is `reencodeRaw_eq_reencode` below (the path as written — checked `usize` product,
+`convert_costs`, `unwrap()`s — equals `reencode` on every input), whence `reencodeRaw_never_panics`. -/
 theorem reencode_never_panics (s : Str) : reencode s ≠ .panic := by
   unfold reencode
   cases h : parse s with
@@ -250,6 +258,10 @@ theorem reencode_never_panics (s : Str) : reencode s ≠ .panic := by
   | err => simp
   | panic => exact absurd h (parse_ne_panic s)
 
+/-- Corollary of totalisation: the definition `needsRehash` has no panic branch in reach.  The code-shaped
+statement that carries content is `C04.needsRehashRaw_eq` (`needsRehashRaw`, with `t_cost.unwrap()` /
+`m_cost.unwrap()` as explicit panic branches, equals `needsRehash` on every input), whence
+`C04.needsRehashRaw_never_panics`. -/
 theorem needsRehash_never_panics (s : Str) (o l : Nat) : needsRehash s o l ≠ .panic := by
   unfold needsRehash
   cases h : parse s with
